@@ -40,6 +40,10 @@ func orderMonitor(exp expectation, res *sim.Result) []finding {
 		if exp.AP == "yes" && !rp.Handled {
 			out = append(out, finding{"C07.activitypub-not-handled", "pub.NewActivityStreamsHandlerScheme", feat("ActivityPub request"), "reported as not handled", 0})
 		}
+		if exp.AP == "unspecified" && !rp.Handled && (len(evs) > 0 || wrote) {
+			// whichever way the header is read: not handled means no effect
+			out = append(out, finding{"C07.non-activitypub-had-effect", "pub.NewActivityStreamsHandlerScheme", feat("request reported as not handled"), fmt.Sprintf("events=%d wrote=%v", len(evs), wrote), 0})
+		}
 		return out
 	}
 	switch {
@@ -47,7 +51,7 @@ func orderMonitor(exp expectation, res *sim.Result) []finding {
 		if exp.AP == "no" && rp.Handled {
 			out = append(out, finding{"C07.non-activitypub-handled", "pub.(*baseActor)." + exp.Endpoint, feat("non-ActivityPub request reported as handled"), exp.String(), 0})
 		}
-		if len(evs) > 0 || wrote || rp.Err != "" {
+		if len(evs) > 0 || wrote {
 			out = append(out, finding{"C07.non-activitypub-had-effect", "pub.(*baseActor)." + exp.Endpoint, feat("non-ActivityPub request"), fmt.Sprintf("events=%d wrote=%v err=%q", len(evs), wrote, rp.Err), 0})
 		}
 		return out
@@ -68,7 +72,9 @@ func orderMonitor(exp expectation, res *sim.Result) []finding {
 	// authentication must precede every side effect
 	authIdx, authOK := -1, false
 	for i, e := range evs {
-		if len(e.Kind) > 16 && e.Kind[:16] == "app.Authenticate" {
+		// "the application's authentication of that request": the hook of
+		// this endpoint, not any authentication hook
+		if e.Kind == "app.Authenticate"+exp.Endpoint {
 			authIdx = i
 			authOK = e.Result == "ok"
 			break
